@@ -10,6 +10,7 @@ import (
 	"math"
 	"net/http"
 	"path"
+	"reflect"
 	"strconv"
 	"sync"
 	"time"
@@ -288,6 +289,11 @@ func handleMethod(svr interface{}, serviceName string, desc *grpc.MethodDesc, un
 		}
 		sts := internal.UnaryServerTransportStream{Name: fullMethod}
 		resp, err := desc.Handler(svr, grpc.NewContextWithServerTransportStream(ctx, &sts), dec, unaryInt)
+		if err == nil && isNil(resp) {
+			// neither a response nor an error: that is a failed call, in every
+			// encoding (the JSON codec would render a nil message as a reply)
+			err = status.Error(codes.Internal, "handler returned neither a response message nor an error")
+		}
 		toHeaders(sts.GetHeaders(), w.Header(), "")
 		toHeaders(sts.GetTrailers(), w.Header(), "X-GRPC-Trailer-")
 		if err != nil {
@@ -328,6 +334,14 @@ func handleMethod(svr interface{}, serviceName string, desc *grpc.MethodDesc, un
 		w.Header().Set("Content-Length", fmt.Sprintf("%d", len(b)))
 		w.Write(b)
 	}
+}
+
+func isNil(m interface{}) bool {
+	if m == nil {
+		return true
+	}
+	rv := reflect.ValueOf(m)
+	return rv.Kind() == reflect.Ptr && rv.IsNil()
 }
 
 // HandleStream returns an HTTP handler that will handle a streaming RPC method
